@@ -286,6 +286,96 @@ def run_babinet(case, seed, R):
 
 
 # ---------------------------------------------------------------------------------------------
+# argument forms of the shift; re-use of one shift object
+
+def shift_forms(shu):
+    """the same physical shift as tuple of numpy scalars / list / float64 ndarray / integer ndarray (when integral)"""
+    a, b = shu
+    forms = [('np-scalars', lambda: (np.float64(a), np.float64(b))), ('list', lambda: [a, b]), ('float64-array', lambda: np.array([a, b], dtype=np.float64))]
+    if float(a).is_integer() and float(b).is_integer():
+        forms.append(('int-array', lambda: np.array([int(a), int(b)], dtype=np.int64)))
+        forms.append(('int-tuple', lambda: (int(a), int(b))))
+    return forms
+
+
+def run_shift_forms(case, seed, R):
+    n, S, P, shu = tuple(case['n']), tuple(case['out']), case['band'], tuple(float(v) for v in case['shift_units'])
+    wvl, efl, dxi = UNITS[0]
+    dxo = wvl * efl / (dxi * P)           # = 500 / P: shifts below are given in physical output units
+    x = dense(n, seed, 17)
+    X = dense(S, seed, 18)
+    nx = max(1.0, float(np.linalg.norm(x)), float(np.linalg.norm(X)))
+    mask = dense(S, seed, 19)
+    for method in ('mdft', 'czt'):
+        reset_executors(64)
+        calls = [
+            ('focus_fixed_sampling', lambda sh: R.call(propagation.focus_fixed_sampling, x.copy(), dxi, efl, wvl, dxo, samples_arg(S), shift=sh, method=method)),                 # noqa
+            ('unfocus_fixed_sampling', lambda sh: R.call(propagation.unfocus_fixed_sampling, X.copy(), dxo, efl, wvl, dxi, samples_arg(n), shift=sh, method=method)),           # noqa
+            ('to_fpm_and_back', lambda sh: R.call(propagation.to_fpm_and_back, x.copy(), dxi, efl, wvl, mask, dxo, shift=sh, method=method)),                                     # noqa
+            ('Wavefront.focus_fixed_sampling', lambda sh: getattr(R.call(Wavefront(x.copy(), wvl, dxi, 'pupil').focus_fixed_sampling, efl, dxo, samples_arg(S), shift=sh, method=method), 'data', FAILED)),   # noqa
+            ('Wavefront.to_fpm_and_back', lambda sh: getattr(R.call(Wavefront(x.copy(), wvl, dxi, 'pupil').to_fpm_and_back, efl, mask, dxo, method=method, shift=sh), 'data', FAILED)),                      # noqa
+        ]
+        for name, f in calls:
+            base = f(shu)
+            if base is FAILED:
+                continue
+            base = np.asarray(base)
+            for form, mk in shift_forms(shu):
+                sh = mk()
+                keep = np.array(sh, dtype=float)
+                got = f(sh)
+                sig = f'{name}:{method}:shift-form:{form}'
+                R.expect_close(got, base, TOL * nx * 10, sig, f'shift given as {form} {sh!r} gives another field than the tuple {shu}')
+                R.expect(np.array_equal(np.array(sh, dtype=float), keep), sig + ':shift-modified', f'the caller\'s shift object was modified: {keep.tolist()} -> {np.array(sh, dtype=float).tolist()}')
+                # the same object again (a user keeps one shift vector for many calls)
+                again = f(sh)
+                R.expect_close(again, base, TOL * nx * 10, sig + ':reuse', f'second call with the same shift object ({form}) gives another field')
+    R.nontrivial()
+    R.outcome('forms')
+
+
+# ---------------------------------------------------------------------------------------------
+# nearly square arrays (aspect-ratio thresholds): a few probe fields, not closed over the data dimension
+
+def run_near_square(case, seed, R):
+    N, S, P, sh = tuple(case['N']), tuple(case['out']), case['band'], tuple(case['shift'])
+    wvl, efl, dxi = UNITS[case['units']]
+    dxo = wvl * efl / (dxi * P)
+    shu = (sh[0] * dxo, sh[1] * dxo)
+    big = max(N)
+    hy = N[0] * N[1] <= 1_500_000          # the call-hygiene repeats copy every argument several times
+    tol = 200 * EPS * big ** 1.5           # phases grow like n, accumulation like sqrt(n) (as C01 'large')
+    n = (3, 4)
+    xs = dense(n, seed, 21)
+    xe = embed(xs, N)
+    aspect = f'{abs(N[0] - N[1]) / max(N):.1e}'
+    for method in ('mdft', 'czt'):
+        for fwd in (True, False):
+            reset_executors(64)
+            name = 'focus_fixed_sampling' if fwd else 'unfocus_fixed_sampling'
+            fn = propagation.focus_fixed_sampling if fwd else propagation.unfocus_fixed_sampling
+            sig = f'{name}:{method}:near-square'
+            # (ii) a small window of field in the huge nearly square array
+            small = R.call(fn, xs.copy(), dxi, efl, wvl, dxo, samples_arg(S), shift=shu, method=method)
+            large = R.call(fn, xe, dxi, efl, wvl, dxo, samples_arg(S), shift=shu, method=method, hygiene=hy)
+            if small is not FAILED:
+                R.expect_close(large, np.asarray(small), tol * max(1.0, float(np.linalg.norm(xs))), sig + ':embedding',
+                               f'F(embed(f)) != F(f): {n} window in {N} (sides differ by {aspect}), output {S} at dx_out={dxo:.6g}, shift {sh}')
+            # (iii) impulses at the far corners, transposed
+            for idx in ((0, 0), (N[0] - 1, N[1] - 1), (N[0] // 2, N[1] - 1))[:3 if big <= 500 else 1]:
+                d = np.zeros(N, dtype=complex)
+                d[idx] = 1
+                a = R.call(fn, d, dxi, efl, wvl, dxo, samples_arg(S), shift=shu, method=method, hygiene=False)
+                b = R.call(fn, np.ascontiguousarray(d.T), dxi, efl, wvl, dxo, samples_arg(S[::-1]), shift=shu[::-1], method=method, hygiene=False)
+                if a is FAILED or b is FAILED:
+                    continue
+                R.expect_close(np.asarray(b).T if np.ndim(b) == 2 else b, np.asarray(a), tol, sig + ':transpose',
+                               f'F(f^T; swapped) != F(f)^T for an impulse at {idx} of {N}, output {S}, shift {sh}')
+    R.nontrivial()
+    R.outcome('near-square')
+
+
+# ---------------------------------------------------------------------------------------------
 
 EMB_OUT = [[3, 3], [4, 5], [6, 2]]
 EMB_BAND = [[4.0, 0], [7.3, 1], [12.0, 0]]          # (n_axis * Q_axis, unit set)
@@ -306,6 +396,14 @@ def plan(tier, seed):
     masks = [[a, b] for a in range(1, mmax + 1) for b in range(1, mmax + 1)]
     bab_cases = [{'n': n, 'mask': m, 'units': (n[0] + m[1]) % 2, 'bands': [5.0, 8.6]} for n in small for m in masks]
     rs = lambda: reset_executors(64)   # noqa
+    # physical output spacing 500/P: P = 4 -> 125 (integral physical shifts exist), P = 7.3 generic
+    sf_cases = [{'n': n, 'out': S, 'band': P, 'shift_units': su}
+                for n in ([3, 3], [2, 4], [5, 3]) for S in ([4, 4], [3, 5])
+                for (P, su) in ((4.0, [125, -250]), (4.0, [0, 62.5]), (7.3, [34.25, 85.6]), (7.3, [-68, 0]))]
+    ns_shapes = [[40, 41], [100, 101], [400, 401], [1000, 1001], [1200, 1201], [1201, 1200]] + \
+        ([] if tier == 'quick' else [[200, 201], [512, 513], [1024, 1025], [1500, 1501], [1999, 2000], [2048, 2049], [2049, 2048]])
+    ns_cases = [{'N': N, 'out': S, 'band': P, 'units': u, 'shift': sh} for N in sorted(ns_shapes)
+                for (S, P, u, sh) in (([4, 5], 7.3, 1, [0, 0]), ([3, 3], 12.0, 0, [0.5, 1.25]))]
     return [
         ScopeUnit('embed_transpose_linear', emb_cases, run_embed,
                   f'every array shape N in [1..{Nmax}]^2 x output samples in {{3 (int form), (4,5), (6,2)}} x physical output spacing wvl*efl/(dx_in*P), P in {{4, 7.3, 12}} (per-axis Q = P/n_axis, below and above 1; two unit sets) '
@@ -319,4 +417,12 @@ def plan(tier, seed):
         ScopeUnit('babinet', bab_cases, run_babinet,
                   f'every pupil shape in [1..{nmax}]^2 x every mask shape in [1..{mmax}]^2 (equal / smaller / larger / mixed) x fpm_dx from bands {{5, 8.6}} x {{real, complex}} seeded dense mask x {{mdft, czt}} x mask shift {{(0,0), (0.5,-1)}}: '
                   'operator matrices T(mask) + T(1-mask) = T(ones); T linear in the field; Wavefront.babinet(lyot in {None, real, complex}, fpm) operator equals diag(lyot)(I - T(1-fpm)); return_more planes', reset=rs),
+        ScopeUnit('shift_forms', sf_cases, run_shift_forms,
+                  'argument-form alphabet of the shift: pupils (3,3),(2,4),(5,3) x outputs (4,4),(3,5) x 4 physical shifts (integral and fractional, one axis zero) x {mdft, czt} x '
+                  '{focus_fixed_sampling, unfocus_fixed_sampling, to_fpm_and_back, Wavefront.focus_fixed_sampling, Wavefront.to_fpm_and_back}: the shift given as tuple of numpy scalars / list / float64 ndarray / '
+                  'int64 ndarray / int tuple must give the field of the float tuple, must not be modified, and the same object passed to a second call must give the same field again '
+                  '(non-zero shifts only: an all-zero list / ndarray is not hashable by the mdft cache key, documented form is a tuple)', reset=rs),
+        ScopeUnit('near_square', ns_cases, run_near_square,
+                  f'aspect-ratio threshold alphabet, NOT closed over the data dimension: array shapes {sorted(ns_shapes)} (sides differing by 2.5% ... 0.05%) x 2 (output samples, band, units, shift) x {{mdft, czt}} x both directions: '
+                  'a seeded dense 3x4 window embedded (by the harness) at the origin of the large array gives the field of the 3x4 array; impulses at far corners / edges (three for sides <= 500, one above) transposed with swapped arguments give the transposed field', reset=rs, chunk=1),
     ]
